@@ -390,6 +390,12 @@ public:
     sandbox_incarnation =
       static_cast<decltype(sandbox_incarnation)>(sandbox_incarnation + n);
   }
+  // the same for any 64-bit distance
+  void verif_advance_incarnation_wide(uint64_t n)
+  {
+    sandbox_incarnation =
+      static_cast<decltype(sandbox_incarnation)>(sandbox_incarnation + n);
+  }
 #endif
 
   /**
